@@ -89,9 +89,18 @@ def c01_sim(num, depth, maxnodes):
     return st
 
 
+def default_resolve(tier):
+    """DefaultResolve.tla: every source shape of the bounded space read by fields without resolver."""
+    big = tier != "quick"
+    return tlc_replay("MC_DefaultResolve", "MC_DefaultResolve", "C01D",
+                      dict(constants={"MaxFields": 3 if big else 2, "Big": "FALSE"}, invariants=["Emit", "Theorems"]),
+                      timeout=1800)
+
+
 def c01_stages(tier, seed):
     if tier == "quick":
         return [
+            default_resolve(tier),
             c01_sim(300, 30, 10),
             ops_family("c01", "C01"),
             c01_family("F1_q", fam="F1", leafs="F1_Leafs", maxsel=3, maxnodes=3),
@@ -103,6 +112,7 @@ def c01_stages(tier, seed):
             c01_family("F5_q", fam="F5", leafs="F5_Leafs", maxsel=2, maxnodes=2, dirs="DirsNone"),
         ]
     return [
+        default_resolve(tier),
         c01_sim(20000, 40, 14),
         ops_family("c01", "C01"),
         c01_family("F1_t", fam="F1", leafs="F1_Leafs", maxsel=4, maxnodes=4),
